@@ -22,19 +22,23 @@ type WrOp struct {
 }
 
 type WrCase struct {
-	Fl      string `json:"fl"` // io | bytes
-	Init    int    `json:"init"`
-	Cap     int    `json:"cap"`
-	IsNil   bool   `json:"isnil"`
-	FailAt  int    `json:"failAt"` // io: the k-th sink write fails (0 = never)
-	Shuffle int64  `json:"shuffle"`
-	Ops     []WrOp `json:"ops"`
+	Fl     string `json:"fl"` // io | bytes
+	Init   int    `json:"init"`
+	Cap    int    `json:"cap"`
+	IsNil  bool   `json:"isnil"`
+	FailAt int    `json:"failAt"` // io: the k-th sink write fails (0 = never)
+	// FailCount: the byte count the failing Write reports next to its error (0 nothing, 1 half, 2 all of it): an error is
+	// an error whatever the count
+	FailCount int    `json:"failCount,omitempty"`
+	Shuffle   int64  `json:"shuffle"`
+	Ops       []WrOp `json:"ops"`
 }
 
 var errSink = errors.New("verif: injected sink error")
 
 type recSink struct {
 	failAt, writes int
+	failCount      int      // what the failing Write reports as written: 0 = nothing, 1 = half, 2 = everything (error all the same)
 	payloads       [][]byte // copies of what each Write received (current flush)
 	failed         bool
 }
@@ -44,7 +48,7 @@ func (s *recSink) Write(p []byte) (int, error) {
 	s.payloads = append(s.payloads, append([]byte(nil), p...))
 	if s.failAt != 0 && s.writes == s.failAt {
 		s.failed = true
-		return 0, errSink
+		return []int{0, len(p) / 2, len(p)}[s.failCount%3], errSink
 	}
 	return len(p), nil
 }
@@ -136,7 +140,7 @@ func runWrCase(raw json.RawMessage, w *TraceWriter) {
 		}
 		wr = bufiox.NewBytesWriter(&target)
 	} else {
-		sink = &recSink{failAt: cs.FailAt}
+		sink = &recSink{failAt: cs.FailAt, failCount: cs.FailCount}
 		wr = bufiox.NewDefaultWriter(sink)
 	}
 	st := wr.(wrStater)
@@ -300,7 +304,7 @@ func genWrCases(c *Ctx) []json.RawMessage {
 			if len(sq) > 2 && k%stride != 0 {
 				continue
 			}
-			add(WrCase{Fl: "io", FailAt: fa, Shuffle: int64(k), Ops: append([]WrOp(nil), sq...)})
+			add(WrCase{Fl: "io", FailAt: fa, FailCount: k % 3, Shuffle: int64(k), Ops: append([]WrOp(nil), sq...)})
 		}
 		for _, in := range inits {
 			k++
@@ -326,6 +330,7 @@ func genWrCases(c *Ctx) []json.RawMessage {
 		cs := WrCase{Fl: "io", Shuffle: rng.Int63()}
 		if rng.Intn(4) == 0 {
 			cs.FailAt = 1 + rng.Intn(4)
+			cs.FailCount = rng.Intn(3)
 		}
 		if rng.Intn(4) == 0 {
 			cs.Fl = "bytes"
